@@ -62,6 +62,14 @@ PAYLOADS = [b"", b"0", b"1", b"20.5", b"a;b", b"55.7;13.0;18", b"a/b", b"x/y;z",
             b"\xff\xfe", b"\xc3", b"\x00\x01", b"hello world", b";", b"/"]
 
 
+def _exc(task):
+    """Exception of a finished task; a task that ended cancelled (a CancelledError leaked out of the library into the
+    caller's task) counts as having raised CancelledError."""
+    if task.cancelled():
+        return asyncio.CancelledError()
+    return task.exception()
+
+
 def budget(tier):
     return 8000 if tier == "quick" else 450_000
 
@@ -180,19 +188,19 @@ def _phase_client(scn, w, broker, res):
         res.violate(PROP, "connect", "hang", "")
         return
     injected_fail = bool(scn.get("tapes", {}).get("mqtt.connect.fail")) or any(scn.get("tapes", {}).get("mqtt.subscribe.fail", []))
-    if t.exception() is not None:
+    if _exc(t) is not None:
         res.probes["connect_failed"] += 1
-        if not isinstance(t.exception(), TransportError):
-            res.violate(PROP, "connect", f"error:{type(t.exception()).__name__}", repr(t.exception())[:200])
+        if not isinstance(_exc(t), TransportError):
+            res.violate(PROP, "connect", f"error:{type(_exc(t)).__name__}", repr(_exc(t))[:200])
         elif not injected_fail:
-            res.violate(PROP, "connect", "failed-without-fault", repr(t.exception())[:200])
+            res.violate(PROP, "connect", "failed-without-fault", repr(_exc(t))[:200])
         res.nontrivial_key = "C18:" + w.elog.digest()[:24]
         # the application retries on the SAME object once the broker is reachable again: a connect that succeeds
         # must subscribe for all five commands, whatever the failed attempt left behind
         w.tapes = Tapes({})
         t2 = loop.create_task(tr.connect())
         loop.run_until_idle(100)
-        if t2.done() and t2.exception() is None:
+        if t2.done() and _exc(t2) is None:
             res.probes["retry_after_failed_connect"] += 1
             deaf = []
             for cmd in range(5):
@@ -201,7 +209,7 @@ def _phase_client(scn, w, broker, res):
                 tr2 = loop.create_task(tr.read())
                 loop.run_until_idle(10)
                 got = None
-                if tr2.done() and tr2.exception() is None:
+                if tr2.done() and _exc(tr2) is None:
                     got = tr2.result().rstrip("\n")
                 elif not tr2.done():
                     tr2.cancel()
@@ -213,8 +221,8 @@ def _phase_client(scn, w, broker, res):
                             f"(command, broker had a matching subscription, line read): {deaf}")
             t3 = loop.create_task(tr.disconnect())
             loop.run_until_idle(100)
-            if not t3.done() or t3.exception() is not None:
-                res.violate(PROP, "disconnect", f"raised:{type(t3.exception()).__name__ if t3.done() else 'hang'}:after-retry", "")
+            if not t3.done() or _exc(t3) is not None:
+                res.violate(PROP, "disconnect", f"raised:{type(_exc(t3)).__name__ if t3.done() else 'hang'}:after-retry", "")
         elif not t2.done():
             t2.cancel()
             loop.run_until_idle(0)
@@ -421,8 +429,8 @@ def _phase_client(scn, w, broker, res):
         if not t2.done():
             res.violate(PROP, "reconnect", "connect-hang", "")
             t2.cancel()
-        elif t2.exception() is not None:
-            res.violate(PROP, "reconnect", f"connect-raised:{type(t2.exception()).__name__}", repr(t2.exception())[:200])
+        elif _exc(t2) is not None:
+            res.violate(PROP, "reconnect", f"connect-raised:{type(_exc(t2)).__name__}", repr(_exc(t2))[:200])
         else:
             ok = broker.inject(f"{inp}/3/1/1/0/2", b"42")
             seen = []
@@ -435,15 +443,15 @@ def _phase_client(scn, w, broker, res):
                     loop.run_until_idle(0)
                     seen.append("hang")
                     break
-                seen.append(repr(tr2.exception()) if tr2.exception() is not None else tr2.result().rstrip("\n"))
+                seen.append(repr(_exc(tr2)) if _exc(tr2) is not None else tr2.result().rstrip("\n"))
                 if seen[-1] == "3;1;1;0;2;42":
                     break
             if not ok or seen[-1] != "3;1;1;0;2;42":
                 res.violate(PROP, "reconnect", "second-session-deaf", f"inject={ok} reads={seen[-4:]}")
             t3 = loop.create_task(tr.disconnect())
             loop.run_until_idle(100)
-            if not t3.done() or t3.exception() is not None:
-                res.violate(PROP, "disconnect", f"raised:{type(t3.exception()).__name__ if t3.done() else 'hang'}:second-session", "")
+            if not t3.done() or _exc(t3) is not None:
+                res.violate(PROP, "disconnect", f"raised:{type(_exc(t3)).__name__ if t3.done() else 'hang'}:second-session", "")
     res.ops += len(scn["events"]) + len(scn["writes"]) + cfg["reads"]
     special = any(bytes.fromhex(e["payload"]) in (b"", b"\xff\xfe", b"\xc3") or b";" in bytes.fromhex(e["payload"])
                   for e in scn["events"] if e["op"] == "msg")
@@ -495,8 +503,8 @@ def _phase_echo(scn, w, res):
         t.cancel()
         loop.run_until_idle(0)
         return
-    if t.exception() is not None:
-        raise t.exception()
+    if _exc(t) is not None:
+        raise _exc(t)
     k = 0
     for f, (kind, val) in zip(scn["echo"], got):
         if kind == "ok":
@@ -571,8 +579,8 @@ def _phase_hooks(scn, w, res):
         t.cancel()
         loop.run_until_idle(0)
         return
-    if t.exception() is not None:
-        res.violate(PROP, "hooks", f"raised:{type(t.exception()).__name__}", repr(t.exception())[:200])
+    if _exc(t) is not None:
+        res.violate(PROP, "hooks", f"raised:{type(_exc(t)).__name__}", repr(_exc(t))[:200])
         return
     expected = t.result()
     reads = [o for o in out if o[0] in ("ok", "err")]
